@@ -402,6 +402,20 @@ func TestC10Subset(t *testing.T) {
 		}
 		ctx := func() string { return fmt.Sprintf("list=%v\n%s", list, c) }
 
+		if rapid.IntRange(0, 2).Draw(t, "fromFile") == 0 {
+			// the usual way a font gets subset: it has been read from a file
+			// (other slice/map shapes, shared cmap subtables, FDSelect as the
+			// reader builds it)
+			var buf bytes.Buffer
+			if _, err := f.Write(&buf); err == nil {
+				if rf, err := sfnt.Read(bytes.NewReader(buf.Bytes())); err == nil && rf.NumGlyphs() == n {
+					f = rf
+					c.Font = rf
+					c.Labels = append(c.Labels, "font-read-from-file")
+				}
+			}
+		}
+
 		var before bytes.Buffer
 		f.Write(&before)
 
